@@ -391,6 +391,19 @@ func checkLockTypestate(c *Check, p *Program, rule string, a *routerAnchors) {
 				if l.Parent() == fn && instrDominates(l, in) {
 					held = true
 				}
+				// a deferred release runs at the function's exit: registered in the block of a Lock that every return
+				// passes, it follows that Lock whichever of the two statements comes first
+				if _, isDefer := in.(*ssa.Defer); isDefer && l.Parent() == fn && l.Block() == in.Block() {
+					all := true
+					for _, r := range returnsOf(fn) {
+						if !l.Block().Dominates(r.Block()) {
+							all = false
+						}
+					}
+					if all {
+						held = true
+					}
+				}
 			}
 			c.Decide(held, rule, FuncName(fn)+" "+k+" follows an acquisition", p.InstrPos(in), "dominated by a Lock of the same mutex", "the send lock is released without having been acquired on this path")
 		})
@@ -1311,7 +1324,7 @@ func checkC14(c *Check, p *Program) {
 			continue
 		}
 		nParked++
-		c.Decide(hasDeferredRecover(op.Fn), "C14.Q7", FuncName(op.Fn)+" send outside serve recovers from the closed channel", p.InstrPos(op.Instr), "deferred function literal calling recover()", "this send can execute after serve closed Router.inbound and nothing recovers the 'send on closed channel' panic: closing the router crashes the process")
+		c.Decide(recoversBefore(op.Fn, op.Instr), "C14.Q7", FuncName(op.Fn)+" send outside serve recovers from the closed channel", p.InstrPos(op.Instr), "deferred function literal calling recover()", "this send can execute after serve closed Router.inbound and nothing recovers the 'send on closed channel' panic: closing the router crashes the process")
 	}
 	_ = nParked
 	for _, r := range returnsOf(a.serve) {
